@@ -745,6 +745,12 @@ pub fn steer(rng: &mut Rng, ins: &Instruction, bytes: &[u8], rip: u64, so: &Stee
         *x = rng.val128();
     }
     let mut t = Trial { code: bytes.to_vec(), rip, gpr, flags, xmm, fs: 0, gs: 0, patches: vec![] };
+    // the FS/GS bases are part of the state whether or not this instruction uses them (an ES/CS/SS/DS override,
+    // or no override at all, must not pick one of them up); the one that IS used is steered below
+    if rng.below(3) == 0 {
+        t.fs = *rng.pick(&[0x1000u64, 0x2000_0100, 0x10, 0x7fff_0000_0000, 0x1_0000_0000]);
+        t.gs = *rng.pick(&[0x3000u64, 0x2000_0200, 0x18, 0x7ffe_0000_0000, 0x2_0000_0000]);
+    }
     let mut target_class = None;
     let mut ea = None;
     let mut invalid = false;
